@@ -39,7 +39,7 @@ func layoutH(line string) string {
 		}
 	}
 	if r[0].k != r[1].k {
-		return "FAIL:different-program"
+		return "FAIL:different-program@@" + r[0].k + "@@" + r[1].k
 	}
 	return "ok"
 }
